@@ -159,7 +159,7 @@ def _on_alarm(signum, frame):
 
 def _safe_run(check, plan):
     import signal
-    limit = float(plan.get("wall_limit", getattr(check, "RUN_WALL_LIMIT", 10.0)))
+    limit = float(plan.get("wall_limit", getattr(check, "RUN_WALL_LIMIT", 20.0)))
     use_alarm = hasattr(signal, "setitimer")
     _ALARM["fired"] = False
     try:
